@@ -466,7 +466,7 @@ func loadScenario(t *testing.T, name string) *scn.Scenario {
 }
 
 func TestRegSavedScenarios(t *testing.T) {
-	names := []string{"small-mixed.json", "printf-tracer-pkglevels.json", "via-twins.json", "echo-tracer.json", "overflow-never.json", "manual-triggers.json", "levels-and-tracers.json"}
+	names := []string{"small-mixed.json", "silence-pairs.json", "printf-tracer-pkglevels.json", "via-twins.json", "echo-tracer.json", "overflow-never.json", "manual-triggers.json", "levels-and-tracers.json"}
 	parallelTrials(t, len(names), 4, func(i int) *scn.Scenario { return loadScenario(t, names[i]) })
 }
 
@@ -642,4 +642,52 @@ func TestRegOraclePrintfStyleTracerOrigin(t *testing.T) {
 	r = clone(base)
 	r.Writes = append(r.Writes[:2], append([]scn.Write{{Text: "L0:2.0", Sev: 4, File: strings.Replace(base.Writes[0].File, "pkga", "pkgb", 1), Line: 88}}, r.Writes[2:]...)...)
 	mustFail(t, "pkgb warning below the global level", sc, fix(r), "must not be emitted")
+}
+
+// Bounded liveness clause: after the long silence a free-running writer must have handed
+// everything to the adapter before Shutdown is called; scheduled writers and stop/resume runs may
+// legally keep lines until Shutdown; a slow adapter is only allowed a bounded total time.
+// (Seeded change C20-5: lost wake-up of the writer.)
+func TestRegOracleSilenceClause(t *testing.T) {
+	mk := func(sched string, silence int) *scn.Scenario {
+		return &scn.Scenario{
+			Sched: sched, Goroutines: 1, AdapterPace: 4, PaceUs: 1000,
+			Init: []scn.Op{{K: scn.OpLevel, Sev: 1}},
+			Phases: []scn.Phase{{G: [][]scn.Op{{
+				{K: scn.OpLines, N: 1, Sev: 3, Pkg: "a"}, {K: scn.OpSleep, Us: 400}, {K: scn.OpLines, N: 1, Sev: 4, Pkg: "a"},
+			}}}},
+			PreShutdownSleepUs: silence,
+		}
+	}
+	sc := mk("free", scn.SilenceUs)
+	good := ideal(sc, false)
+	good.AtShutdownCall = 2
+	good.WriteTimes = [][2]int64{{1000, 2000}, {12500, 13500}}
+	good.LastLogUs = 1450
+	rep := mustPass(t, "everything written during the silence", sc, good)
+	if !rep.LastInFinal {
+		t.Fatalf("last line fell into the final adapter call of its batch: not recognised")
+	}
+	stuck := clone(good)
+	stuck.AtShutdownCall = 1 // the second line came out only through the shutdown drain
+	mustFail(t, "line stuck until Shutdown", sc, stuck, "stayed in the buffer until the shutdown drain")
+	// same observation where the clause does not apply
+	mustPass(t, "short pause before Shutdown", mk("free", 25000), stuck)
+	mustPass(t, "scheduled writer", mk("never", scn.SilenceUs), stuck)
+	st := mk("free", scn.SilenceUs)
+	st.Stutter = &scn.Stutter{RunUs: 50, StopMs: 11, N: 3}
+	mustPass(t, "stop/resume run", st, stuck)
+	// statistics: B taken in the same drain loop is not "final call of a batch"
+	same := clone(good)
+	same.WriteTimes = [][2]int64{{1000, 2000}, {2010, 3010}}
+	if scn.Check(sc, same).LastInFinal {
+		t.Fatalf("line written in the same batch counted as logged during the final adapter call")
+	}
+	// a slow adapter with too many calls is rejected as a scenario (the clause would be unsound)
+	big := mk("free", scn.SilenceUs)
+	big.PaceUs = 5000
+	big.Phases[0].G[0] = []scn.Op{{K: scn.OpLines, N: 200, Sev: 3, Pkg: "a"}}
+	if r := scn.Check(big, good); r.Harness == "" {
+		t.Fatalf("pace 4 with 200 calls x 5 ms accepted")
+	}
 }
